@@ -21,6 +21,7 @@ import (
 	"fmt"
 	"math/rand"
 	"runtime"
+	"strings"
 
 	"github.com/canopy-network/canopy/lib"
 	"github.com/canopy-network/canopy/lib/crypto"
@@ -139,6 +140,8 @@ type Chain struct {
 	Gmps  []int
 	gi    int
 	Hold  bool
+	// Broken: nodes whose restart failed
+	Broken map[*node.Node]bool
 	// LastCert: the version of the commit certificate each node stored for its last committed height
 	LastCert map[*node.Node]string
 	// CanonErrors: write every error as `rejected` (drivers whose model does not distinguish error codes)
@@ -215,7 +218,7 @@ func (c *Chain) Propose(nd *node.Node, txs []node.MixTx, opName string) (*Propos
 	}
 	blk := new(lib.Block)
 	if e := lib.Unmarshal(block, blk); e != nil {
-		panic(e)
+		panic(node.RealCodeError{Where: "unmarshal of the block ProduceProposal returned", Err: e.Error()})
 	}
 	vs := nd.Committee()
 	hb, _ := lib.Marshal(blk.BlockHeader)
@@ -300,8 +303,56 @@ func (c *Chain) Interrupt(nd *node.Node) {
 	c.Op(c.Names[nd]+" interrupt", "ok")
 }
 
-func (c *Chain) Restart(nd *node.Node) {
-	nd.Reopen()
-	c.Op(c.Names[nd]+" restart", "ok state="+nd.StateDigest())
+// Restart closes and reopens the node (process restart). When the real code cannot come back up — the
+// store does not open, the state machine or controller cannot be rebuilt from it, or the mempool
+// proposal cannot be rebuilt at the committed height — that is an execution-path failure: it is
+// reported as <Property>:restart-path-fails:<stage> with the history position, the node is marked
+// broken (drivers skip it from then on) and false is returned.
+func (c *Chain) Restart(nd *node.Node) bool {
+	h := uint64(0)
+	if !nd.Dead() {
+		h = nd.Height()
+	}
+	stage, err := nd.Reopen()
 	c.O.Count("path:restart")
+	if err != nil {
+		c.Op(c.Names[nd]+" restart", "err:"+stage+":"+node.ErrCode(err))
+		if c.Broken == nil {
+			c.Broken = map[*node.Node]bool{}
+		}
+		c.Broken[nd] = true
+		c.O.Fail(Property+":restart-path-fails:"+stage,
+			fmt.Sprintf("node %s, restarted (reopen #%d) at committed height %d, cannot come back up: stage %q fails with %s: %s — a node that never restarted holds the same prefix without error",
+				c.Names[nd], nd.Opens, h, stage, node.ErrCode(err), strings.Join(strings.Fields(err.Error()), " ")),
+			map[string]any{"case": c.O.CurCase(), "seed": c.O.Seed, "node": c.Names[nd], "height": h, "stage": stage, "error": err.Error(),
+				"history": "see the case's op lines up to this restart (ops.txt)"})
+		return false
+	}
+	c.Op(c.Names[nd]+" restart", "ok state="+nd.StateDigest())
+	return true
+}
+
+// Property is the property id the running driver reports failures under (set by the driver's Run).
+var Property = "C03"
+
+// Guard runs one case and turns a real-code error the harness could not route (node.RealCodeError:
+// the real code failed where an honest run cannot fail) into an oracle failure instead of a crash.
+func Guard(o *drv.Out, f func()) {
+	defer func() {
+		if r := recover(); r != nil {
+			if e, ok := r.(node.RealCodeError); ok {
+				where := strings.Map(func(r rune) rune {
+					if r == ' ' || r == '(' || r == ')' || r == ':' {
+						return '-'
+					}
+					return r
+				}, e.Where)
+				o.Fail(Property+":real-code-error:"+where, fmt.Sprintf("the real code fails where an honest run cannot fail: %s: %s", e.Where, e.Err),
+					map[string]any{"case": o.CurCase(), "seed": o.Seed, "where": e.Where, "error": e.Err})
+				return
+			}
+			panic(r)
+		}
+	}()
+	f()
 }
